@@ -381,3 +381,16 @@ impl crate::vm::VM {
         (self.heap.verif_free_list(), self.heap.verif_slot_count())
     }
 }
+
+// MakeClosure keeps the freshly allocated function object in an interpreter local while it
+// reaches its second safepoint; the audit needs to know which object that is.
+thread_local! {
+    static PENDING_FN: Cell<Option<usize>> = const { Cell::new(None) };
+}
+pub fn pending_fn_set(v: Option<usize>) {
+    PENDING_FN.with(|c| c.set(v));
+}
+/// Heap index of the function object MakeClosure currently holds only in a local, if any.
+pub fn pending_fn() -> Option<usize> {
+    PENDING_FN.with(|c| c.get())
+}
